@@ -4,6 +4,7 @@ go 1.13
 
 require (
 	github.com/grafana/carbon-relay-ng v0.0.0
+	github.com/kisielk/og-rek v0.0.0-20170405223746-ec792bc6e6aa
 	github.com/metrics20/go-metrics20 v0.0.0-20180821133656-717ed3a27bf9
 	github.com/sirupsen/logrus v1.1.2-0.20181020050904-08e90462da34
 )
